@@ -116,6 +116,15 @@ Definition search2 (skip : nat -> bool) (init best : vec) : vec :=
 Definition refine (skip : nat -> bool) (init : vec) : vec := search2 skip init (search1 skip init init).
 End Search.
 
+(* ------------------------------------------------------------------ the whole refinement of one layer *)
+(* the quantizer may list its precisions in any order: own_of k = own index of the k-th smallest precision
+   (sorted_indexes), pos_of p = sorted position of own index p (inverse_indexes) *)
+Definition cc (cur : list nat) (p : nat) : nat := count p (map Some cur).          (* channels currently at own index p *)
+Definition init_sorted (cur : list nat) (P : nat) (own_of : nat -> nat) : vec := map (fun k => cc cur (own_of k)) (seq 0 P).
+Definition unsort (pos_of : nat -> nat) (P : nat) (v : vec) : list nat := map (fun p => nth (pos_of p) v 0) (seq 0 P).
+Definition best_own (cost : vec -> Q) (skip : nat -> bool) (P : nat) (cur : list nat) (own_of pos_of : nat -> nat) : list nat :=
+  unsort pos_of P (refine cost skip (init_sorted cur P own_of)).
+
 (* correspondence helpers *)
 Definition code_assign (a : assignment) : list Z := map (fun x => match x with Some p => Z.of_nat p | None => (-1)%Z end) a.
 Definition run_reassign (scores : list (list Q)) (best : list nat) : list Z := code_assign (reassign scores best).
@@ -127,3 +136,10 @@ Fixpoint lookup_cost (tbl : list (vec * Q)) (v : vec) : Q :=
   end.
 Definition run_refine (tbl : list (vec * Q)) (skip : list nat) (init : vec) : vec :=
   refine (lookup_cost tbl) (fun i => existsb (Nat.eqb i) skip) init.
+
+(* search + reassignment of one layer from its score (alpha) matrix: (counts kept, in sorted order; new own index per channel) *)
+Definition run_pipeline (tbl : list (vec * Q)) (skip own pos : list nat) (scores : list (list Q)) : vec * list Z :=
+  let P := length scores in
+  let cur := map (col_argmax scores) (seq 0 (ncols scores)) in
+  let r := refine (lookup_cost tbl) (fun i => existsb (Nat.eqb i) skip) (init_sorted cur P (fun k => nth k own 0)) in
+  (r, code_assign (reassign_abs cur (map argsort_desc scores) (unsort (fun p => nth p pos 0) P r))).
